@@ -44,6 +44,10 @@ type Reply struct {
 	// RoundTrippers and mocks do), or one with TransferEncoding ["identity"]. Both are written by Response.Write
 	// as a close-delimited message: stored, their end is marked by nothing but the end of the entry.
 	ZeroLen    bool `json:"zero_len,omitempty"`
+	// ShortEOF > 0 (Content-Length framing only): the body ENDS — a clean io.EOF, no error — that many bytes before the
+	// length the reply declares. net/http's own transports report io.ErrUnexpectedEOF in that case; another
+	// RoundTripper (a size guard, a mock) may not.
+	ShortEOF int `json:"short_eof,omitempty"`
 	// BodyStallNs: the body delivers nothing for this long (virtual time) before it goes on
 	BodyStallNs int64 `json:"body_stall_ns,omitempty"`
 	TEIdentity bool `json:"te_identity,omitempty"`
